@@ -52,6 +52,8 @@ MODULES = ["Spydr.Verilog.Model", "Spydr.Verilog.ModelElab", "Spydr.Verilog.Mode
            "Spydr.Verilog.RoundTripTokD", "Spydr.Verilog.RoundTripText",
            "Spydr.Verilog.RoundTripRenderA", "Spydr.Verilog.RoundTripRenderB",
            "Spydr.Verilog.RoundTripLexA", "Spydr.Verilog.RoundTripLexB",
+           "Spydr.Verilog.RoundTripPieceA", "Spydr.Verilog.RoundTripPieceB", "Spydr.Verilog.RoundTripPieceC",
+           "Spydr.Verilog.RoundTripStruct",
            "Spydr.Verilog.WFBase", "Spydr.Verilog.WFPort", "Spydr.Verilog.WFEval", "Spydr.Verilog.WFHeader",
            "Spydr.Verilog.WFDecl", "Spydr.Verilog.WFInst", "Spydr.Verilog.WFDesign", "Spydr.Verilog.WFStruct"]
 THEOREMS = {
@@ -82,7 +84,8 @@ THEOREMS = {
             "Spydr.Verilog.Elab.expr_toks", "Spydr.Verilog.Elab.star_toks", "Spydr.Verilog.Elab.paramMap_toks", "Spydr.Verilog.Elab.namedMapGo_toks", "Spydr.Verilog.Elab.instP_toks", "Spydr.Verilog.Elab.portDeclP_toks", "Spydr.Verilog.Elab.cableDeclGo_toks", "Spydr.Verilog.Elab.bodyGo_items", "Spydr.Verilog.Elab.moduleP_toks", "Spydr.Verilog.Elab.parseV_toks", "Spydr.Verilog.Elab.parse_tokens", "Spydr.Verilog.Elab.c04_tokens", "Spydr.Verilog.Elab.exNet_tokens",
             "Spydr.Verilog.Elab.c04_text", "Spydr.Verilog.Elab.exNet_full", "Spydr.Verilog.Elab.exNet_roundtrip",
             "Spydr.Verilog.Elab.composeV_text", "Spydr.Verilog.Elab.moduleText_top", "Spydr.Verilog.Elab.fragFull_of",
-            "Spydr.Verilog.Elab.lexV_run", "Spydr.Verilog.Elab.add_pend", "Spydr.Verilog.Elab.add_word_end", "Spydr.Verilog.Elab.run_clean", "Spydr.Verilog.Elab.lex_pieces", "Spydr.Verilog.Elab.lexV_pieces"],
+            "Spydr.Verilog.Elab.lexV_run", "Spydr.Verilog.Elab.add_pend", "Spydr.Verilog.Elab.add_word_end", "Spydr.Verilog.Elab.run_clean", "Spydr.Verilog.Elab.lex_pieces", "Spydr.Verilog.Elab.lexV_pieces",
+            "Spydr.Verilog.Elab.chars_modP", "Spydr.Verilog.Elab.toks_modP", "Spydr.Verilog.Elab.chars_fileP", "Spydr.Verilog.Elab.lexR_of_pieces", "Spydr.Verilog.Elab.c04_text_struct", "Spydr.Verilog.Elab.exNet_struct"],
 }
 
 
